@@ -800,7 +800,9 @@ def check(ctx):
     probe_and_cms(ctx, o5)
     o6 = Ob('C19.6', 'K13', 'documented defaults (sensing_interval, unbounded data_capacity) equal the signature defaults; sensor constructors hand same-named arguments to the base constructor')
     defaults_and_passthrough(ctx, o6)
-    return [o1, o2, o3, o4, o5, o6]
+    o7 = ctx.shared('c01', 'C01.5', 'C19.7', 'a periodic sensor asks for its next measurement at now + interval: the event queue must queue it for exactly that time '
+                    '(a queue that rounds or clamps requested times moves every measurement off the k-fold sum of the interval)')
+    return [o1, o2, o3, o4, o5, o6, o7]
 
 
 CLAIM = {
